@@ -4,6 +4,9 @@
  * must be complete objects. Data concrete (the property is about control). */
 #include "verif.h"
 #include <m4ri/djb.h>
+struct heap;
+void heap_push(struct heap *h, rci_t value, const mzd_t *A);
+void heap_pop(struct heap *h, const mzd_t *A);
 #ifndef VSEED
 #define VSEED 1
 #endif
@@ -69,6 +72,17 @@ void harness(void) {
 #elif SCEN == 11 /* DJB small (no growth): every site of heap_init / djb_init */
   mzd_t *A = cm(3, 3); djb_t *z = djb_compile(A);
   VASSERT(z != NULL && z->target != NULL && z->source != NULL && z->srctyp != NULL, "compiled map complete");
+#elif SCEN == 13 /* DJB operation queue growth in isolation: 70 pushes cross the 64-entry chunk boundary */
+  djb_t *z = djb_init(4, 4);
+  VASSERT(z != NULL && z->target != NULL && z->source != NULL && z->srctyp != NULL, "map complete");
+  for (int i = 0; i < 70; ++i) djb_push_back(z, i % 4, (i / 4) % 4, source_source);
+  VASSERT(z->length == 70 && z->target != NULL && z->source != NULL && z->srctyp != NULL, "queue complete after growth");
+#elif SCEN == 14 /* heap of the DJB compiler in isolation: init + growth (4 -> 8 entries) + shrink */
+  mzd_t *A = cm(9, 9);
+  extern struct heap *heap_init(void);
+  struct heap *h = heap_init();
+  for (int i = 0; i < 9; ++i) heap_push(h, i, A);
+  for (int i = 0; i < 8; ++i) heap_pop(h, A);
 #elif SCEN == 12 /* mzd_from_str, randomize, density helpers */
   mzd_t *A = mzd_from_str(2, 3, "101011"); OKM(A);
 #endif
